@@ -483,3 +483,70 @@ theorem vTop_key_path (root : CTy) (bl : List String) (i f m : Bool) (us : Bytes
       | some v => simp
 
 end Mp
+
+/-! ### too many arguments: a call of a function without a variadic parameter that is given more literal arguments than the
+    descriptor declares is rejected by the validator on the operation (C14, the over-long clause, for every descriptor) -/
+namespace Mp
+open Generated
+
+def isLitParam : Param → Bool | .num _ => true | .str _ => true | .bool _ => true | _ => false
+
+theorem vParam_lit (root : CTy) (bl : List String) (p : Param) (h : isLitParam p = true) : ∃ pty, vParam root bl p = some ([], pty) := by
+  cases p <;> simp [isLitParam] at h <;> simp [vParam]
+
+theorem paramCheck_keeps_none (fd : FuncDesc) (hv : ∀ q ∈ fd.params, q.2 ≠ "Variadic") (i : Nat) (pty : String × String) :
+    (paramCheck fd i none pty).2 = none := by
+  unfold paramCheck
+  simp only [Option.getD_none]
+  cases hq : fd.params[i]? with
+  | none => rfl
+  | some pd =>
+    have hm : pd ∈ fd.params := List.mem_of_getElem? hq
+    have := hv pd hm
+    simp [this]
+
+theorem vParams_lits_some (root : CTy) (bl : List String) (fd : FuncDesc) (hv : ∀ q ∈ fd.params, q.2 ≠ "Variadic") :
+    ∀ (ps : List Param) (i : Nat), (∀ p ∈ ps, isLitParam p = true) → ∃ e, vParams root bl fd i none ps = some e := by
+  intro ps
+  induction ps with
+  | nil => intro i _; exact ⟨[], by simp [vParams]⟩
+  | cons p rest ih =>
+    intro i hl
+    obtain ⟨pty, hp⟩ := vParam_lit root bl p (hl p (by simp))
+    obtain ⟨more, hm⟩ := ih (i + 1) (fun q hq => hl q (by simp [hq]))
+    refine ⟨(if ([] : List String).isEmpty then (paramCheck fd i none pty).1 else []) ++ more, ?_⟩
+    have h2 := paramCheck_keeps_none fd hv i pty
+    simp only [vParams, hp]
+    rw [show paramCheck fd i none pty = ((paramCheck fd i none pty).1, (paramCheck fd i none pty).2) from rfl]
+    simp only [h2, hm]
+
+/-- **C14**: more literal arguments than the descriptor declares (no variadic parameter): some argument is in error -/
+theorem over_long_literals_rejected (root : CTy) (bl : List String) (fd : FuncDesc) (hv : ∀ q ∈ fd.params, q.2 ≠ "Variadic") :
+    ∀ (ps : List Param) (i : Nat), (∀ p ∈ ps, isLitParam p = true) → i ≤ fd.params.length → fd.params.length < i + ps.length →
+      ∃ e, vParams root bl fd i none ps = some e ∧ e ≠ [] := by
+  intro ps
+  induction ps with
+  | nil => intro i _ hi hlen; simp at hlen; omega
+  | cons p rest ih =>
+    intro i hl hi0 hlen
+    obtain ⟨pty, hp⟩ := vParam_lit root bl p (hl p (by simp))
+    obtain ⟨more, hm⟩ := vParams_lits_some root bl fd hv rest (i + 1) (fun q hq => hl q (by simp [hq]))
+    have h2 := paramCheck_keeps_none fd hv i pty
+    have hstep : vParams root bl fd i none (p :: rest) = some ((paramCheck fd i none pty).1 ++ more) := by
+      simp only [vParams, hp]
+      rw [show paramCheck fd i none pty = ((paramCheck fd i none pty).1, (paramCheck fd i none pty).2) from rfl]
+      simp only [h2, hm]
+      rfl
+    by_cases hi : fd.params.length ≤ i
+    · -- this argument is itself beyond the declared ones
+      have hq : fd.params[i]? = none := List.getElem?_eq_none hi
+      have hc : (paramCheck fd i none pty).1 = ["other"] := by simp [paramCheck, hq]
+      exact ⟨_, hstep, by simp [hc]⟩
+    · have hlen' : fd.params.length < (i + 1) + rest.length := by simp at hlen; omega
+      obtain ⟨e, he, hne⟩ := ih (i + 1) (fun q hq => hl q (by simp [hq])) (by omega) hlen'
+      rw [hm] at he
+      have : more = e := by simpa using he
+      subst this
+      exact ⟨_, hstep, by simp [hne]⟩
+
+end Mp
